@@ -499,6 +499,12 @@ __strfd_card(
 {
 	size_t res = 0;
 
+	if (UNLIKELY(that.typ == DT_BIZDA && !s.bizda)) {
+		/* everything but the b-suffixed specs is about the calendar
+		 * day the business day denotes */
+		that = dt_dconv(DT_YMD, that);
+	}
+
 	switch (s.spfl) {
 	default:
 	case DT_SPFL_UNK:
